@@ -1,7 +1,7 @@
 """C06 — Markdown: every scrut block becomes exactly one test; nothing is dropped; no crash."""
 from ..cfgq import aggregates, bool_edges, cond_tree, explore, place_key, result_variant_blocks, stmt_loc, switches, variant_edges
 from ..facts import AnchorError, Origins, call_name, callee_name, method_name, mname, peel, strip_mods
-from . import eunit
+from . import eunit, c07
 
 SCOPE_LEN_MINUS = ("src/parsers/", "src/generators/", "src/renderers/", "src/diff.rs", "src/expectation.rs")
 
@@ -514,5 +514,6 @@ def run(ctx):
     ctx.run_rule("R6.6", "consumed-line conservation: each line read by the tokenizer is stored in exactly one token field or consumed as a delimiter on every path (shared with C10 R10.6) [E-STATE by dataflow]", r6_6, floor=4)
     ctx.run_rule("R6.7", "parse feeds every code line to add_testcase_body; end_testcase builds the TestCase from the parser state [E-FLOW]", r6_7, floor=7)
     ctx.run_rule("R6.10", "line parser: `$ ` starts and `> ` continues a command (exact prefixes), body text stored unmodified, expectation / exit-code lines unmodified (shared with C07 R7.2) [E-FLOW]", r6_10, floor=4)
+    ctx.run_rule("R6.11", "total parsing: no unwrap/expect on a fallible text conversion in parsers / expectation / rules / config (shared with C07 R7.5) [E-SITE]", c07.total_parsing_rules, floor=5)
     ctx.run_rule("R6.9", "closing-fence predicate is a prefix test against the opener's fence (equality would reject longer closing fences) [E-TABLE of accepted forms]", r6_9, floor=3)
     ctx.run_rule("R6.8", "read_file normalises CRLF through replace_crlf before parsing [E-FLOW]", r6_8, floor=1)
